@@ -57,7 +57,7 @@ impl Check for C05 {
         "C05"
     }
     fn plan(&self, tier: Tier) -> Plan {
-        Plan { cases: if tier == Tier::Quick { 20_000 } else { 400_000 }, max_len: 6144 }
+        Plan { cases: if tier == Tier::Quick { 120_000 } else { 2_000_000 }, max_len: 6144 }
     }
     fn rule(&self) -> String {
         "choice sequence -> multi-frame image (canvas 1..40 squared, gray/RGB, 0..3 extra channels incl. straight/premultiplied alpha, 8-bit Modular frames with values also outside the nominal range so clamping is observable; 2..7 frames of type regular / reference-only / skip-progressive; durations with animation header; save slots 0..3; per-channel blend info (Replace/Add/Blend/MulAdd/Mul, alpha channel choice, clamp, source slot); crops with negative origin, partly or wholly outside the canvas, larger than the canvas; patches from reference slots with all 8 patch blend modes) x a generated keyframe request order with repeats. Oracle: reference compositor (blend rules applied in bitstream order with the formulas of the definition, f32) -- every render_frame(k), in any request order, equals the model canvas within 2e-6*max(1,|v|) and has the image dimensions. Non-trivial: >= 2 frames and (non-Replace mode, crop, source != 0 or patch); distinct by FNV of the codestream.".into()
